@@ -23,6 +23,7 @@ import (
 
 	"github.com/oxia-db/oxia/common/concurrent"
 	"github.com/oxia-db/oxia/common/constant"
+	"github.com/oxia-db/oxia/common/vhook"
 	"github.com/oxia-db/oxia/server/util"
 )
 
@@ -163,6 +164,9 @@ func (q *quorumAckTracker) AdvanceHeadOffset(headOffset int64) {
 	}
 
 	q.headOffset.Store(headOffset)
+	if vhook.Enabled {
+		vhook.At("qat.head", q, headOffset)
+	}
 	q.waitForHeadOffset.Broadcast()
 
 	if q.requiredAcks == 0 {
@@ -233,6 +237,9 @@ func (q *quorumAckTracker) WaitForCommitOffsetAsync(_ context.Context, offset in
 
 func (q *quorumAckTracker) notifyCommitOffsetAdvanced(commitOffset int64) {
 	q.commitOffset.Store(commitOffset)
+	if vhook.Enabled {
+		vhook.At("qat.commit", q, commitOffset, q.headOffset.Load())
+	}
 
 	for _, r := range q.waitingRequests {
 		if r.minOffset > commitOffset {
